@@ -2,7 +2,7 @@
 from core import Ctx, callee_tag, classify, describe, short, base_places
 from model import (Catalogue, self_field_targets, is_storage_type, store_type, item_storage,
                    is_phantom, STATE_MACHINES)
-from expr import trees, show, facts_at, operand_tree, reach_strict, CMP_OPS, fact_still_holds
+from expr import trees, tree, show, facts_at, operand_tree, reach_strict, CMP_OPS, fact_still_holds
 
 WRITE_API = {
     ("Push", "push"), ("ReserveItems", "reserve_items"), ("Region", "reserve_regions"),
@@ -409,10 +409,39 @@ def r_freeze(F, R, cat=None, cheapest=False):
                                        ff[1][1][1] == "is_empty" for ff in facts_at(ctx, bi))]
                 ok = bool(guard_blocks)
                 if guard_blocks:
-                    entry = guard_blocks[0]
                     avoid = att | conv
-                    reach = b.reachable(entry, avoid)
-                    ok = not any(b.term(x)["k"] == "return" for x in reach) or entry in avoid
+                    # every region in which `second` is known to be empty is judged at its entry (a
+                    # guard block no other guard block dominates): from there no return avoids the
+                    # attempt -- unless the region lies behind the attempt already (a debug_assert! of
+                    # a post-condition tests the same emptiness again after the push)
+                    roots = [g for g in guard_blocks if not any(h != g and b.dominates(h, g) for h in guard_blocks)]
+                    before = b.reachable(0, avoid)
+                    # the branches on `second.is_empty()` themselves: taking the "empty" edge of one of
+                    # them and later the "not empty" edge of another is not a path (nothing in between
+                    # can have filled `second` without passing an attempt site or an append to it)
+                    from expr import edge_facts as _ef, reachable_avoiding as _ra
+                    t_edges, f_edges = [], set()
+                    sec_place = ("place", b.key, ("arg", 1), ("f:" + second,))
+                    for s_ in b.live_blocks():
+                        for (tg_, fs_) in _ef(ctx, s_):
+                            for ff in fs_:
+                                if ff[0] == "truthy" and isinstance(ff[1], tuple) and ff[1][0] == "call" and ff[1][1][1] == "is_empty" and \
+                                        ff[1][2] and ff[1][2][0] == sec_place:
+                                    (t_edges.append((s_, tg_)) if ff[2] is True else f_edges.add((s_, tg_)))
+                    # a branch on the outcome of the narrowing conversion of the pushed value is the
+                    # attempt on the first level being evaluated (the conversion itself may have been
+                    # computed before the emptiness test: `match (second.is_empty(), u32::try_from(x))`)
+                    for s_ in b.live_blocks():
+                        for (tg_, fs_) in _ef(ctx, s_):
+                            if any(ff[0] == "variant" and is_conversion_of_param(ff[1]) for ff in fs_):
+                                avoid = avoid | {s_}
+                    if t_edges:
+                        ok = all(tg_ in avoid or (s_ not in before and s_ != 0) or
+                                 not any(b.term(x)["k"] == "return" for x in _ra(b, tg_, avoid, f_edges))
+                                 for (s_, tg_) in t_edges)
+                    else:
+                        ok = all(g in avoid or g not in before or not any(b.term(x)["k"] == "return" for x in b.reachable(g, avoid))
+                                 for g in roots)
                 R.check("R-GUARD", b.label(), ok,
                         construct="cheapest representation (%s) is attempted whenever %s is empty" % (first, second),
                         where=b.where(), detail="attempt sites %s, conversion sites %s" % (sorted(att), sorted(conv)))
@@ -691,6 +720,14 @@ def r_reject_stored(F, R, cat=None):
                         if y not in rej:
                             accepted_edges.add((sbi, y))
                 if not starts:
+                    from expr import nobb as _nb4
+                    rets_ = [_nb4(tree(ctx, o)) for o in ctx.org.local(0)] if b is top else []
+                    if any(nd[0] == "call" and nd[1] == ("Stride", "push") for r_ in rets_ for nd in _walk_all(r_) if nd):
+                        # the verdict of the stride is handed back to the caller (a helper that only
+                        # asks the stride): what the caller does with a rejection is judged there
+                        R.undecided_site("R-GUARD", top.label(), "the result of Stride::push is returned to the caller at %s:%s: where a "
+                                         "rejected value goes is decided by the caller" % (b.file, t["line"]))
+                        continue
                     ok = False
                     detail = "the result of Stride::push is not branched on here: a rejected value is dropped"
                 else:
@@ -707,6 +744,15 @@ def r_reject_stored(F, R, cat=None):
         # of rejected values is not something this rule reads
         R.undecided_site("R-GUARD", "impls::index::IndexOptimized", "no Stride::push call in IndexOptimized: how a value the "
                          "stride rejects reaches the spill list is not decided")
+
+
+def _walk_all(t):
+    if isinstance(t, tuple):
+        yield t
+        for x in t:
+            if isinstance(x, tuple):
+                for y in _walk_all(x):
+                    yield y
 
 
 def r_spill_unattempted(F, R, cat=None):
